@@ -131,6 +131,10 @@ def main():
             sh(f"git -C /repo worktree remove --force {wt}")
             shutil.rmtree(wt, ignore_errors=True)
     # ---- run our checks against the change
+    import fcntl
+    os.makedirs("/tmp/wtc", exist_ok=True)
+    lockf = open("/tmp/wtc/repo.lock", "w")
+    fcntl.flock(lockf, fcntl.LOCK_EX)  # /repo is patched from here on: one evaluation (or other user of /repo) at a time
     rc, out = sh("git status --porcelain", cwd="/repo")
     if out.strip():
         print("REFUSING: /repo is not clean:\n", out)
@@ -141,9 +145,6 @@ def main():
     shutil.rmtree(ev_backup, ignore_errors=True)
     os.makedirs("/tmp/wtc", exist_ok=True)
     shutil.copytree("/verif/evidence", ev_backup)
-    import fcntl
-    lockf = open("/tmp/wtc/repo.lock", "w")
-    fcntl.flock(lockf, fcntl.LOCK_EX)  # /repo is patched from here on: one evaluation (or other user of /repo) at a time
     try:
         rc, out = sh(f"git apply {patch}", cwd="/repo")
         if rc != 0:
